@@ -36,6 +36,7 @@ structure St where
   natLog  : List (Nat × List Val)          -- native callback log (callback id, argument values)
   natCount : Nat
   fault   : Fault
+  tags    : List Nat := []                 -- known-finding rules that fired (1 = a named, return-flagged value adopted by `var x = y`)
 deriving Repr, Inhabited
 
 /-- initial state: one const Data per literal/builtin object -/
